@@ -273,8 +273,107 @@ def c12(ctx):
                            "distinct = distinct branch paths")
 
 
+def _heap_cfgs(tier, kind):
+    if kind == "disc":
+        return [dict(T0=0, T=3, MaxOps=2, NBase=2)] if tier == QUICK else \
+               [dict(T0=0, T=3, MaxOps=3, NBase=2), dict(T0=-2, T=2, MaxOps=2, NBase=2)]
+    return [dict(T0=0, T=4, MaxOps=2, NBase=2)] if tier == QUICK else \
+           [dict(T0=0, T=4, MaxOps=3, NBase=2), dict(T0=-2, T=4, MaxOps=2, NBase=2)]
+
+
+HEAP_INVS = ["Represents", "IntegralLinear"]
+HEAP_PROPS = ["XIsUnion", "OnlyReceiverChanges", "Commutes"]
+
+
+def _run_heap(ctx, kinds, backends=("py", "shim"), only_add=False):
+    for kind in kinds:
+        for c in _heap_cfgs(ctx.tier, kind):
+            c = dict(c)
+            c["Kind"] = '"%s"' % kind
+            if c["T0"] < 0:
+                c["T0"] = "<- Neg%d" % (-c["T0"])
+            res = run_tlc("FuncObjects", c, HEAP_INVS, properties=HEAP_PROPS, view="View",
+                          action_constraints=["TransExport"], workers=16, timeout=6000)
+            ctx.add_tlc(res, "heap of %s objects under add / mul_scalar / copy: arrays represent the ghost combination" % kind)
+            if res.violated:
+                continue
+            ex = res.exports
+            if only_add:
+                ex = [r for r in ex if r["op"]["f"] == "add"]
+            ctx.sample(ex[len(ex) // 2])
+            for r in ex:
+                ctx.count_path("%s:%s:%s" % (kind, r["op"]["f"], "/".join(str(len(o["x"])) for o in r["pre"])))
+            replay.run(ctx, "heap", ex, backends=backends, chunk=500)
+
+
 def _c12_add(ctx):
-    return
+    """the three add routine pairs: every add transition of the heap spec under both backends"""
+    _run_heap(ctx, ["pwc", "pwl", "disc"], only_add=True)
 
 
-PROPS = {"C12": c12, "C01": c01, "C02": c02, "C03": c03, "C04": c04, "C07": c07, "C08": c08, "C15": c15, "C16": c16}
+def c09(ctx):
+    """adding piecewise profiles = pointwise addition on the merged support; operand untouched; copies independent"""
+    _run_heap(ctx, ["pwc", "pwl"])
+    ctx.assumptions += ["generic rational piece values on integer breakpoints; every breakpoint pattern pair of the grid",
+                        "histories are covered transition-wise: every reachable heap (<= MaxOps-1 operations) x every operation, "
+                        "with an independence probe through the public API after each"]
+    return ctx.finish(rule="every transition (heap, operation) of FuncObjects reachable within MaxOps operations; "
+                           "distinct = distinct (kind, operation, shape of the heap) classes")
+
+
+QUERY_INVS = ["IntegralExact", "FullEqWhole", "Additive", "MultiInterval", "EvalRule", "Plottable",
+              "OpenIntervalSums", "DiscFull", "DiscMulti", "SmoothingIsUnitMean", "Export"]
+
+
+def _run_query(ctx, kinds):
+    for kind in kinds:
+        if ctx.tier == QUICK:
+            cfgs = [dict(T0=1, T=4 if kind == "disc" else 5)]
+        else:
+            cfgs = [dict(T0=1, T=5 if kind == "disc" else 6), dict(T0=-2, T=2)]
+        for c in cfgs:
+            c = dict(c)
+            c["Kind"] = '"%s"' % kind
+            if c["T0"] < 0:
+                c["T0"] = "<- Neg%d" % (-c["T0"])
+            res = run_tlc("FuncQuery", c, QUERY_INVS, workers=16, timeout=6000)
+            ctx.add_tlc(res, "queries of %s functions: code formula = declarative definition" % kind)
+            if res.violated:
+                continue
+            seen = set()
+            for r in res.exports:
+                key = (r["q"]["kind"], r["res"]["branch"])
+                if key not in seen:
+                    seen.add(key)
+                    ctx.sample(r, limit=6)
+                ctx.count_path("%s:%s:%s:%d" % (kind, r["q"]["kind"], r["res"]["branch"], len(r["f"]["x"])))
+                ctx.actions["%s.%s.%s" % (kind, r["q"]["kind"], r["res"]["branch"])] = \
+                    ctx.actions.get("%s.%s.%s" % (kind, r["q"]["kind"], r["res"]["branch"]), 0) + 1
+            replay.run(ctx, "query", res.exports, backends=("py",), chunk=500)
+
+
+def c10(ctx):
+    """integral, average and evaluation of piecewise functions are exact"""
+    _run_query(ctx, ["pwc", "pwl"])
+    ctx.assumptions += ["generic rational values, integer breakpoints on a support that does not start at 0, interval ends and "
+                        "evaluation times on the quarter grid (multi-interval form: half grid)",
+                        "queries do not dispatch to a backend: executed once"]
+    return ctx.finish(rule="every function (breakpoint pattern) x every query (interval a<b, pair of intervals, evaluation time, "
+                           "plottable); distinct = (kind, query, branch of the code, number of breakpoints)")
+
+
+def c11(ctx):
+    """discrete profiles add by event and integrate over open intervals; smoothing"""
+    _run_heap(ctx, ["disc"])
+    _run_query(ctx, ["disc"])
+    ctx.assumptions += ["integer event times (events on the edge times included), generic rational values, multiplicities 1..3",
+                        "smoothing: unit-contribution definition checked against the transcribed loop for k = 0, 1, 2"]
+    return ctx.finish(rule="every heap transition of discrete functions + every (function, query); "
+                           "distinct = (operation / query, branch, shape) classes")
+
+
+import re as _re
+
+
+def _props():
+    return {k.upper(): v for k, v in globals().items() if _re.match(r"c\d\d$", k) and callable(v)}
